@@ -1197,8 +1197,12 @@ def build_cfgs(tier):
                             if src.startswith("url") and (spec != specs[0] or cached not in (False, True)):
                                 continue
                             size0 = "A" if cached is not True else other[style]
-                            add(src, style, size0, rep, spec, cached, depth=3,
-                                alphabet=dict(full, seek=(0, nf - 1, nf), terms=("S",) if cached is True else ()))
+                            a = dict(full, seek=(0, nf - 1, nf), terms=("S",) if cached is True else (),
+                                     draw_anim=(2,) if cached is not False else (1,))
+                            if spec != specs[0]:    # str() and n_frames do not depend on the spec
+                                a.pop("str")
+                                a.pop("n_frames")
+                            add(src, style, size0, rep, spec, cached, depth=3, alphabet=a)
             # (T2) deeper with every fault index, three flavours per (style, source)
             for si, src in enumerate(anim_srcs):
                 nf = K.N_FRAMES[src.split(":")[1]]
@@ -1283,6 +1287,8 @@ def run(ctx):
     if getattr(ctx, "opts", {}).get("dump"):
         for k, (cnt, sig, what, rep) in sorted(ctx.violations.items()):
             E(f"SIG x{cnt}: {k}\n      {what}\n      e.g. {rep.get('hist') if isinstance(rep, dict) else rep}")
+    for c in ctor_cases()[:1] + cfgs[:1]:
+        ctx.sample(c if "part" in c else dict(cfg=c["id"], hist=[]))
     ctx.coverage["states"] = ctx.extra.get("states", 0)
     ctx.coverage["transitions"] = ctx.extra.get("transitions", 0)
     ctx.coverage.update(
